@@ -1303,7 +1303,9 @@ run_stats(void *arg)
 static void
 run_device(void *arg)
 {
-	(void) arg;
+	// 1: the back side has no peer, so a forwarded message WAITS in the device's send (the
+	// device is then stopped while it owns a message it could not pass on)
+	int nopeer = (int) (intptr_t) arg;
 	vh_init(1);
 	nng_socket f, b, req, rep;
 	nng_aio   *da;
@@ -1315,7 +1317,8 @@ run_device(void *arg)
 	VH_OK(nng_socket_set_ms(rep, NNG_OPT_RECVTIMEO, 100));
 	VH_OK(nng_listen(f, "inproc://c03-dev-f", NULL, 0));
 	VH_OK(nng_listen(rep, "inproc://c03-dev-b", NULL, 0));
-	VH_OK(nng_dial(b, "inproc://c03-dev-b", NULL, 0));
+	if (!nopeer)
+		VH_OK(nng_dial(b, "inproc://c03-dev-b", NULL, 0));
 	VH_OK(nng_dial(req, "inproc://c03-dev-f", NULL, 0));
 	VH_OK(nng_aio_alloc(&da, NULL, NULL));
 	nng_device_aio(da, f, b);
@@ -1354,7 +1357,7 @@ run_device(void *arg)
 	(void) nng_socket_close(rep);
 	(void) nng_socket_close(f);
 	(void) nng_socket_close(b);
-	vs_outcome("when=%d how=%d", when, how);
+	vs_outcome("when=%d how=%d nopeer=%d", when, how, nopeer);
 	vh_fini();
 }
 
@@ -1648,6 +1651,16 @@ main(int argc, char **argv)
 		vx_explore(&c, NULL);
 	}
 	explore("device", run_device);
+	{
+		vx_cfg c;
+		memset(&c, 0, sizeof(c));
+		c.prop           = "C03";
+		c.scenario       = "device-stopped-while-forwarding";
+		c.run            = run_device;
+		c.arg            = (void *) (intptr_t) 1;
+		c.budget[VB_ENV] = -1;
+		vx_explore(&c, NULL);
+	}
 	for (int k = 0; k < 3; k++)
 		explore_fan(k);
 	// quick: the cooked pairings; thorough: all of them, also after a warm-up transfer
